@@ -22,7 +22,7 @@
 From Coq Require Import List String Arith Bool Lia.
 Import ListNotations.
 From MVGen Require Import JsGates_gen.
-From MV Require Import Js.PrintModel Js.PrintSpec Js.PrintGen Js.PrintProofs Js.PrintGroup Js.RewriteModel Js.RewriteSem Js.RewriteProofs.
+From MV Require Import Js.PrintModel Js.PrintSpec Js.PrintGen Js.PrintProofs Js.PrintGroup Js.RewriteModel Js.RewriteSem Js.RewriteProofs Js.RewritePipe Js.RewritePipeProofs.
 Local Open Scope string_scope.
 
 Example js_prec_tables_ok : prec_tables_ok T_gen = true.
@@ -128,6 +128,56 @@ End Rewrites.
 Print Assumptions rewrites_preserve_value_and_effects.
 Print Assumptions not_pushing_preserves.
 Print Assumptions call_merge_condition_is_effect_free.
+
+(* ---------- the WHOLE expression pipeline ----------
+   Js/RewritePipe.v: [rw fuel prec e] is the tree exactly as minifyExpr writes it at a position of precedence prec
+   (rewrites at every node, kept parentheses as EGroup, dropped ones gone, the (a,b) op c unwrapping done), [emit] writes a
+   tree without decisions.  print_rw — the token model compared with the real js.Minify on every run — is emit after rw;
+   the written tree is parser-shaped at the level of its position, so the tokens DERIVE it in the ECMA-262 grammar; and it
+   evaluates like the input.  Together: what js.Minify writes for an expression of the fragment parses back to a tree
+   that has the same value and the same side effects as the input.  (The proof of the middle step failed on the pinned
+   code for the (a,b) op c unwrapping: finding K119, repaired in /repo; the hypotheses simple_targets / no_const_assign
+   exclude inputs that are not valid JavaScript assignment targets and finding K118.) *)
+Theorem pipeline_tokens_are_emit_of_written_tree : forall T fuel prec e t,
+  rw T fuel prec e = Some t -> print_rw T fuel prec e = emit t.
+Proof. exact RewritePipeProofs.print_rw_is_emit_rw. Qed.
+Print Assumptions pipeline_tokens_are_emit_of_written_tree.
+
+Theorem pipeline_output_parses_back : forall fuel e l p t, wf l e -> rw T_gen fuel p e = Some t ->
+  D (Nat.min l p) (print_rw T_gen fuel p e) (deconst t).
+Proof. exact RewritePipeProofs.pipeline_output_parses_back_gen. Qed.
+Print Assumptions pipeline_output_parses_back.
+
+Section Pipeline.
+  Variables (V S : Type) (truthy : V -> bool) (vtrue vfalse vundef vinf : V).
+  Hypothesis truthy_true : truthy vtrue = true.
+  Hypothesis truthy_false : truthy vfalse = false.
+  Hypothesis truthy_undef : truthy vundef = false.
+  Variables (var : String.string -> S -> V) (assign : String.string -> V -> S -> S).
+  Hypothesis var_assign_same : forall x v s, var x (assign x v s) = v.
+  Variables (call : V -> V -> S -> V * S) (strict_eq : V -> V -> bool) (loose_eq : V -> V -> S -> bool * S)
+            (compare : String.string -> V -> V -> S -> bool * S) (arith : String.string -> V -> V -> S -> V * S)
+            (pure_unop : String.string -> V -> V) (unop member : String.string -> V -> S -> V * S)
+            (index : V -> V -> S -> V * S) (nullish : V -> bool).
+  Notation ev := (eval T_gen V S truthy vtrue vfalse vundef vinf var assign call strict_eq loose_eq compare arith pure_unop unop member index nullish).
+
+  Theorem pipeline_preserves_value_and_effects : forall fuel prec e t,
+    no_const_assign e = true -> simple_targets e = true -> rw T_gen fuel prec e = Some t -> forall s, ev t s = ev e s.
+  Proof.
+    intros fuel prec e t H1 H2 H3 s.
+    apply (rw_preserves_value_and_effects T_gen V S truthy vtrue vfalse vundef vinf truthy_true truthy_false truthy_undef var assign var_assign_same
+             call strict_eq loose_eq compare arith pure_unop unop member index nullish) with (fuel := fuel) (prec := prec);
+      [vm_compute; reflexivity | exact H1 | exact H2 | exact H3].
+  Qed.
+End Pipeline.
+Print Assumptions pipeline_preserves_value_and_effects.
+
+(* non-vacuity: a statement-level expression that is rewritten, unwrapped and regrouped; fuel suffices *)
+Example pipeline_nonvacuous :
+  let e := EBin "AndToken" (EGroup (EBin "CommaToken" (EAtom "l") (EPre "NotToken" (EGroup (EBin "AndToken" (EAtom "a") (EAtom "b")))))) (ECall (EAtom "f") (EAtom "x")) in
+  wf 0 e /\ no_const_assign e = true /\ simple_targets e = true /\
+  exists t, rw T_gen 50 0 e = Some t /\ emit t = print_rw T_gen 50 0 e.
+Proof. vm_compute. repeat split; auto; try lia. eexists. split; reflexivity. Qed.
 
 (* the excluded case is real: K118 on the model — (undefined = a) ? undefined : b with a = 5 evaluates to undefined (2 in the
    concrete interpretation), its rewriting (undefined = a) || b to 5 *)
